@@ -787,7 +787,8 @@ def final_drop_signature(c, fid):
     f = next((x for x in fs if x['id'] == fid), None)
     if f is None:
         return False
-    m = re.match(r'used_by_[a-z-]+:_[A-Za-z]+\((\d+)\)', f.get('why', ''))
+    # kept because a consumer used it, or because a trial elimination of it made that consumer fail
+    m = re.match(r'(?:used_by|if_excluded_then:)_[a-z-]+:_[A-Za-z]+\((\d+)\)', f.get('why', ''))
     if not m:
         return False
     g = next((x for x in fs if x['id'] == m.group(1)), None)
